@@ -71,6 +71,9 @@ pub struct RunCfg {
     pub timeout_ms: Option<u64>,
     #[serde(default)]
     pub symmetry: bool,
+    /// hook H3: states a worker evaluates before it offers to share work (default 1500)
+    #[serde(default)]
+    pub block_size: Option<usize>,
 }
 impl RunCfg {
     pub fn plain(strat: Strat, threads: usize) -> RunCfg {
@@ -82,8 +85,20 @@ impl RunCfg {
             target_max_depth: None,
             timeout_ms: None,
             symmetry: false,
+            block_size: None,
         }
     }
+    pub fn with_block(mut self, b: Option<usize>) -> RunCfg {
+        self.block_size = b;
+        self
+    }
+}
+
+/// Block sizes: mostly the default, otherwise tiny so that block boundaries and work sharing
+/// occur on small graphs.
+pub fn block_strategy() -> proptest::strategy::BoxedStrategy<Option<usize>> {
+    use proptest::prelude::*;
+    prop_oneof![3 => Just(None), 2 => Just(Some(1usize)), 2 => Just(Some(2usize)), 1 => Just(Some(3usize)), 1 => Just(Some(5usize)), 1 => Just(Some(8usize))].boxed()
 }
 
 pub struct Visit<M: Model> {
@@ -210,6 +225,17 @@ where
             gave_up,
         }
     }
+    // the checker captures the context of the spawning thread (hook H3)
+    stateright::verif_hooks::set_spawn_ctx(cfg.block_size.map(|b| {
+        Arc::new(stateright::verif_hooks::Ctx { block_size: Some(b), sched: None })
+    }));
+    struct ClearCtx;
+    impl Drop for ClearCtx {
+        fn drop(&mut self) {
+            stateright::verif_hooks::set_spawn_ctx(None);
+        }
+    }
+    let _clear = ClearCtx;
     match cfg.strat {
         Strat::Bfs => finish(b.spawn_bfs(), cfg.threads, visits, max_wait),
         Strat::Dfs => finish(b.spawn_dfs(), cfg.threads, visits, max_wait),
